@@ -104,7 +104,7 @@ def keyFn (cfg : Cfg) (kt : Ty) (k : ENode) : Option Val :=
   | _, _ => interp cfg kt k
 
 /-- a field identifier -/
-def identFn (k : ENode) : Option Val := (identOf k).map .str
+def identFn (cfg : Cfg) (k : ENode) : Option Val := (identOf cfg k).map .str
 
 theorem deserKey_step_ty (fuel : Nat) (cfg : Cfg) (kt : Ty) (events : List Ev) (kemn : Bool) :
     deserKey (fuel + 1) cfg (.inl kt) events kemn =
@@ -119,7 +119,7 @@ theorem deserKey_step_ty (fuel : Nat) (cfg : Cfg) (kt : Ty) (events : List Ev) (
 
 theorem deserKey_step_ident (fuel : Nat) (cfg : Cfg) (events : List Ev) (kemn : Bool) :
     deserKey (fuel + 1) cfg (.inr ()) events kemn =
-      match deserStr (.replay events 0 none) with
+      match deserStr cfg (.replay events 0 none) with
       | .err e _ => .error (if (e.loc == 0 && e.kind != "AliasError") = true then
           { e with loc := (Cur.replay events 0 none).refLoc } else e)
       | .ok s c' =>
@@ -128,7 +128,7 @@ theorem deserKey_step_ident (fuel : Nat) (cfg : Cfg) (events : List Ev) (kemn : 
         | _ => .ok (.str s) := by
   rw [deserKey]; rfl
 
-theorem keyRef_ident (cfg : Cfg) (k : ENode) : KeyRef cfg (.inr ()) identFn k := by
+theorem keyRef_ident (cfg : Cfg) (k : ENode) : KeyRef cfg (.inr ()) (identFn cfg) k := by
   refine ⟨1, fun fuel hf => ?_⟩
   obtain ⟨fuel, rfl⟩ : ∃ f, fuel = f + 1 := ⟨fuel - 1, by omega⟩
   rw [deserKey_step_ident]
@@ -137,9 +137,9 @@ theorem keyRef_ident (cfg : Cfg) (k : ENode) : KeyRef cfg (.inr ()) identFn k :=
     have e1 : eflatten (.scalar v tag rt st a l) = [.scalar v tag rt st a l] := by simp [eflatten]
     rw [e1]
     have h : [Ev.scalar v tag rt st a l].drop 0 = .scalar v tag rt st a l :: [] := rfl
-    have := deserStr_scalar none h
+    have := deserStr_scalar none cfg h
     simp only [identFn]
-    cases hid : identOf (.scalar v tag rt st a l) with
+    cases hid : identOf cfg (.scalar v tag rt st a l) with
     | none =>
       simp only [hid, expect_none] at this
       obtain ⟨e, c, he⟩ := this
@@ -150,12 +150,12 @@ theorem keyRef_ident (cfg : Cfg) (k : ENode) : KeyRef cfg (.inr ()) identFn k :=
   | seq a tag rt l el items =>
     have h : (eflatten (.seq a tag rt l el items)).drop 0 = .seqStart a tag rt l :: (eflattenL items ++ [.seqEnd el]) := by
       simp [eflatten]
-    obtain ⟨e, c, he⟩ := deserStr_other none h rfl
+    obtain ⟨e, c, he⟩ := deserStr_other none cfg h rfl
     simp [he, identFn, identOf]
   | map a l el es =>
     have h : (eflatten (.map a l el es)).drop 0 = .mapStart a l :: (eflattenE es ++ [.mapEnd el]) := by
       simp [eflatten]
-    obtain ⟨e, c, he⟩ := deserStr_other none h rfl
+    obtain ⟨e, c, he⟩ := deserStr_other none cfg h rfl
     simp [he, identFn, identOf]
 
 theorem deser_kemn (cfg : Cfg) (a : Nat) (l el : Loc) : ∀ (kt : Ty), isOptionKeyTy kt = true → ∃ n, ∀ fuel, n ≤ fuel →
